@@ -445,6 +445,8 @@ func (rw *ReadWriter) Read(m *MessageRaw, isV2 bool) (Message, error) {
 		// in this latter case it must be filled with zeros to support empty-byte de-truncation
 		// and extension fields
 		if len(payload) < int(rw.sizeExtended) {
+			// limit the capacity in order to force a copy and never write on the caller's buffer
+			payload = payload[:len(payload):len(payload)]
 			payload = append(payload, bytes.Repeat([]byte{0x00}, int(rw.sizeExtended)-len(payload))...)
 		}
 	} else {
